@@ -131,7 +131,7 @@ def run_verus_unit(unit, tier):
     except SliceError as e:
         r['notes'].append(f'vacuity variant: {e}')
     # baseline
-    base = load_baseline(unit)
+    base = None if os.environ.get('VERIF_UPDATE_BASELINE') else load_baseline(unit)
     if base is not None:
         lost = [o for o in base['obligations'] if o not in obs]
         if lost and r['status'] == 'ok':
@@ -225,6 +225,8 @@ def main(argv=None):
     ap.add_argument('--unit', help='run only this unit (debug)')
     a = ap.parse_args(argv)
     seed = int(os.environ.get('VERIF_SEED', '0') or 0)
+    if a.update_baseline:
+        os.environ['VERIF_UPDATE_BASELINE'] = '1'
     props = load_props()
     if a.replay:
         with open(a.replay) as f:
